@@ -221,6 +221,13 @@ func init() {
 		return nil
 	}
 	harnessAPI["verifNativeRepeat"] = func(fr *frame, args []value) value { return 1 }
+	// zzStubConn: an upstream connection object that is never used for I/O (the protocol is stubbed); only Close is
+	// reached, which is intercepted below. Natively the companion file dials a loopback websocket server.
+	harnessAPI["zzStubConn"] = func(fr *frame, args []value) value {
+		t := mustDeref(fr.fn.Signature.Results().At(0).Type())
+		cell := zero(t)
+		return &cell
+	}
 	harnessAPI["verifSetBudget"] = func(fr *frame, args []value) value {
 		fr.m.budget = fr.cint(args[0])
 		return nil
@@ -602,6 +609,9 @@ func init() {
 		return iface{t: types.NewPointer(t), v: &cell}
 	})
 
+	reg("(*github.com/coder/websocket.Conn).Close (*github.com/coder/websocket.Conn).CloseNow", func(fr *frame, args []value) value {
+		return iface{}
+	})
 	registerSync(reg)
 	registerFmt(reg)
 	registerJSON(reg)
